@@ -10,6 +10,7 @@ import (
 	"go/token"
 	"go/types"
 	"math/big"
+	"os"
 	"sort"
 	"strings"
 
@@ -1237,6 +1238,11 @@ func (ex *Exec) backEdge(fr *Frame, li *loopInfo, st *State) {
 	}
 	// automatic frame invariant for the heap havocked at the header
 	ex.frameCheck(st, fmt.Sprintf("loop%d", li.ordinal), "inv-keep", pos)
+	// vacuity: an iteration can be completed (a body that is unreachable under the assumptions would make every
+	// obligation inside it hold vacuously); locked like the per-return covers
+	if !ex.safetyOnly && os.Getenv("GOVC_NO_EXIT_COVERS") == "" && (ex.fr == ex.top) {
+		ex.vc.Cover(fmt.Sprintf("loop%d-iteration-completes", li.ordinal), st.pc, TTrue, pos)
+	}
 }
 
 // ---------------------------------------------------------------------------
